@@ -6,6 +6,8 @@ every step, the closed-form statement is evaluated by Lean on the implementation
 real Dispatcher's assignments are checked against driver availability."""
 from __future__ import annotations
 
+from . import framework as fw  # noqa: E402
+
 import logging
 import random
 from dataclasses import replace
@@ -152,6 +154,6 @@ def worker(args) -> Dict[str, Any]:
             if o.get("mon"):
                 findings.append({"id": r["id"], "kind": "mon", "text": o["mon"][:8], "record": r})
     s = recs[0]
-    return {"n": len(recs), "steps": steps, "rows": n_disp, "findings": findings[:20], "n_findings": len(findings),
+    return {"n": len(recs), "steps": steps, "rows": n_disp, "findings": fw.pick(findings, 20), "n_findings": len(findings),
             "shapes": sorted(shapes, key=str),
             "sample": {"meta": s["meta"], "drivers": s["drivers"][:4], "first_steps": s["obs"][:3], "dispatched": s["dispatched"][:4]}}
